@@ -90,6 +90,63 @@ pub fn failing_instruction<S: Src, const WHICH: u8, const DEPTH: u8>(s: &mut S) 
     s.reached("c15.failing_instruction");
 }
 
+/// The same failing programs with the trace construction switched off (it is what makes the
+/// harnesses above too expensive): the address the interpreter attributes the error to - the key
+/// it looks the first trace entry up with - must be the first byte of the failing instruction,
+/// and the call frame must record the address of its call instruction.
+pub fn attributed_address<S: Src, const WHICH: u8>(s: &mut S) {
+    let mut rig = Rig::new(if WHICH == 4 { 3 } else { 8 }, 4, 1 << 16);
+    let x = s.i64();
+    let mut a = Asm::new();
+    a.op(op::SCALAR_NIL);
+    let fail_at = a.pos();
+    let expect_kind = match WHICH {
+        0 => {
+            let h = Handle::from_bytes(b"nope");
+            a.op(op::CALL_NATIVE).bytes(bytemuck::bytes_of(&h));
+            E_PROC_NOT_FOUND
+        }
+        1 => {
+            a.op(op::GET_PROPERTY);
+            E_INVALID_ARG
+        }
+        2 => {
+            a.op(op::CALL_FUNCTION);
+            E_INVALID_ARG
+        }
+        3 => {
+            a.op(op::READ_UPVALUE).u32(0);
+            E_NOT_CLOSURE
+        }
+        4 => {
+            a.int(x);
+            E_STACKOVERFLOW
+        }
+        5 => {
+            a.op(op::STRING_LITERAL).u32(99);
+            E_INVALID_ARG
+        }
+        _ => {
+            a.read_global(7);
+            E_VAR_NOT_FOUND
+        }
+    };
+    a.exit();
+    rig.push(Value::Integer(x));
+    let (res, _) = rig.run(a);
+    match &res {
+        Ok(()) => assert!(false, "C15.step.instruction_fails"),
+        Err(e) => assert!(kind_of(&e.payload) == expect_kind, "C15.step.error_kind"),
+    }
+    assert!(
+        cao_lang::verif_hooks::last_error_addr() == fail_at as u64,
+        "C15.trace.error_is_attributed_to_the_failing_instructions_own_address"
+    );
+    std::mem::forget(res);
+    std::mem::forget(rig);
+    s.reached("c15.attributed_address");
+}
+
 /// Timeout is attributed to the instruction that was about to execute
 pub fn timeout_location<S: Src>(s: &mut S) {
     let mut rig = Rig::new_with_trace(8, 4, 1 << 16);
@@ -116,7 +173,41 @@ pub fn timeout_location<S: Src>(s: &mut S) {
     s.reached("c15.timeout_location");
 }
 
+pub fn timeout_address<S: Src>(s: &mut S) {
+    let mut rig = Rig::new(8, 4, 1 << 16);
+    let _ = s.u8();
+    let mut a = Asm::new();
+    a.op(op::SCALAR_NIL);
+    let second = a.pos();
+    a.op(op::POP);
+    a.exit();
+    rig.vm.max_instr = 2;
+    let (res, _) = rig.run(a);
+    assert!(matches!(&res, Err(e) if kind_of(&e.payload) == E_TIMEOUT), "C15.step.times_out");
+    assert!(
+        cao_lang::verif_hooks::last_error_addr() == second as u64,
+        "C15.trace.timeout_is_attributed_to_the_pending_instruction"
+    );
+    std::mem::forget(res);
+    std::mem::forget(rig);
+    s.reached("c15.timeout_address");
+}
+
 crate::harnesses! {
+    #[kani::stub(alloc::fmt::format, crate::stub_format)]
+    c15_addr_missing_native / 18 => attributed_address::<_, 0>;
+    #[kani::stub(alloc::fmt::format, crate::stub_format)]
+    c15_addr_get_property / 18 => attributed_address::<_, 1>;
+    #[kani::stub(alloc::fmt::format, crate::stub_format)]
+    c15_addr_call_non_function / 18 => attributed_address::<_, 2>;
+    #[kani::stub(alloc::fmt::format, crate::stub_format)]
+    c15_addr_read_upvalue / 18 => attributed_address::<_, 3>;
+    #[kani::stub(alloc::fmt::format, crate::stub_format)]
+    c15_addr_stackoverflow / 18 => attributed_address::<_, 4>;
+    #[kani::stub(alloc::fmt::format, crate::stub_format)]
+    c15_addr_unknown_global / 18 => attributed_address::<_, 6>;
+    #[kani::stub(alloc::fmt::format, crate::stub_format)]
+    c15_addr_timeout / 18 => timeout_address;
     #[kani::stub(alloc::fmt::format, crate::stub_format)]
     c15_missing_native_depth0 / 18 => failing_instruction::<_, 0, 0>;
     #[kani::stub(alloc::fmt::format, crate::stub_format)]
